@@ -37,9 +37,12 @@ def make_classes(ns):
     class N:
         """not a handler"""
 
+    class Mid(desper.Controller):
+        """plain, undecorated level between the decorated Controller and the re-decorated Ha"""
+
     @desper.event_handler('probe')
-    class Ha(desper.Controller):
-        """handler with on_add (via Controller) but no on_remove"""
+    class Ha(Mid):
+        """handler with on_add (via Controller, two levels up) but no on_remove"""
 
         def on_add(self, entity, world):
             super().on_add(entity, world)
@@ -77,8 +80,15 @@ CLASSES, CREATE_SETS = FLAVOURS['plain']
 Hd, Hs, N, Ha, Ho = CLASSES
 
 
+# what each class listens to, as declared by the decorators above and on desper.Controller (event_handler composes
+# the inherited events with the newly named ones); spelled out here so that the oracle does not take it from the
+# code under test
+DECLARED = {'Hd': {'on_add', 'on_remove', 'probe'}, 'Hs': {'on_add', 'on_remove', 'probe'}, 'N': set(),
+            'Ha': {'on_add', 'probe'}, 'Ho': {'probe'}}
+
+
 def has(cls, event):
-    return event in getattr(cls, '__events__', {})
+    return event in DECLARED[cls.__name__]
 
 
 class Model:
@@ -423,7 +433,7 @@ RULE = ('one evaluation = one feasible path (operation sequence); non-trivial = 
         'removal, immediate deletion, deletion at process, non-empty clear, a release of postponed callbacks, a probe '
         'delivery or a re-attachment')
 BOUNDS = {
-    'quick': 'L=3 operations; ids 1,2 and automatic; classes Hd, Hs(Hd), N, Ha(Controller), Ho; 8 component sets for create; '
+    'quick': 'L=3 operations; ids 1,2 and automatic; classes Hd, Hs(Hd), N, Ha(Mid(Controller)) - a three-level chain with an undecorated middle -, Ho; 8 component sets for create; '
              'reenter: built entity 1 (6 component sets) + optional bystander 9, 4 actions x armed on_add/on_remove, L=2 of 7 operations',
     'thorough': 'L=4 with one id + automatic (all classes); L=4 with two ids (3 classes); L=5 with one id (2 classes); reenter L=3',
 }
